@@ -333,11 +333,29 @@ func (t *Transaction) Select(table string, where []ovsdb.Condition, columns []st
 		if err != nil {
 			return ovsdb.ResultFromError(err)
 		}
+		if len(columns) > 0 {
+			// only the requested columns are part of the result, the _uuid is
+			// always provided as it identifies the row
+			for column := range resultRow {
+				if column != "_uuid" && !contains(columns, column) {
+					delete(resultRow, column)
+				}
+			}
+		}
 		results = append(results, resultRow)
 	}
 	return ovsdb.OperationResult{
 		Rows: results,
 	}
+}
+
+func contains(columns []string, column string) bool {
+	for _, c := range columns {
+		if c == column {
+			return true
+		}
+	}
+	return false
 }
 
 func (t *Transaction) Update(op *ovsdb.Operation) (ovsdb.OperationResult, *updates.ModelUpdates) {
